@@ -46,6 +46,10 @@ func judge(fr *FuncResult) (failed []*Obligation) {
 			}
 			continue
 		}
+		if ob.Skipped {
+			ob.OK = true
+			continue
+		}
 		ob.OK = ob.Result != nil && ob.Result.Status == "unsat"
 		if !ob.OK {
 			failed = append(failed, ob)
